@@ -236,6 +236,78 @@ PROPS = {
             "native's call site (known class 12); OutOfMemory is not in the stream (no allocator in Vm.v)",
         ],
     ),
+    "C04": dict(
+        prop_file="Properties/C04.v",
+        check_module="C04Check",
+        theorems={t: [] for t in [
+            "C04_compile_total", "C04_compile_never_diverges", "C04_super_depth_total", "C04_patch_code_complete",
+            "C04_compile_total_zero_name_refuted", "C04_compile_total_zero_path_refuted",
+            "C04_compile_total_zero_label_refuted",
+            "C04_run_total", "C04_step_no_abort_partial", "C04_step_pre_entry_state", "C04_invalid_opcode_aborts",
+            "C04_empty_call_stack_aborts", "C04_full_value_stack_is_stackoverflow", "C04_full_value_stack_scalar_nil",
+            "C04_full_call_stack_is_callstackoverflow", "C04_full_call_stack_call_function",
+            "C04_call_non_function_is_invalid_argument", "C04_get_property_wrong_type", "C04_set_property_wrong_type",
+            "C04_integer_overflow_wraps", "C04_integer_overflow_witness", "C04_budget_zero_is_timeout",
+            "C04_budget_zero_dispatches_nothing",
+        ]},
+        n_quick=200, n_thorough=2000,
+        gen_timeout=3000,
+        gates=["fmt.json", "fmt.yaml", "fmt.deep", "parse.ok", "parse.err", "compile.ok", "model.applies",
+               "compile.err.ENoMain", "compile.err.EBadFunctionName", "compile.err.EBadImport", "compile.err.EInvalidJump",
+               "compile.err.EEmptyVariable", "compile.err.ETooManyLocals", "compile.err.ETooManyUpvalues",
+               "compile.err.ERecursionLimitReached", "compile.err.EDuplicateModule", "compile.err.ESuperLimitReached",
+               "run.ok", "run.err.Timeout", "run.err.Stackoverflow", "run.err.CallStackOverflow", "run.err.OutOfMemory",
+               "run.err.MissingArgument", "run.err.InvalidArgument", "run.err.ProcedureNotFound",
+               "cfg.stack=1", "cfg.stack=2", "cfg.calls=1", "cfg.calls=2", "cfg.mem<=64", "cfg.budget=0", "cfg.budget=1",
+               "cfg.budget=2", "cfg.twice", "cyclic", "cyclic.build_only", "deep.built", "deep.loader.json",
+               "deep.loader.yaml", "text.deep_brackets", "text.deep_cards", "text.yaml_special", "text.mut.truncate",
+               "text.mut.byte", "text.mut.name", "text.mut.number", "text.soup", "text.skeleton",
+               "front.arity_mismatch", "front.import_self", "front.import_cycle", "front.name.function",
+               "front.name.variable", "front.no_main", "front.empty_main", "extreme.many_cards", "extreme.long_string",
+               "extreme.many_locals", "extreme.many_globals", "extreme.upvalues_over", "extreme.many_functions",
+               "extreme.module_depth", "find.zero_name.global", "find.zero_path.card", "find.zero_label.closure",
+               "prog.vmgen", "prog.progs", "prog.modgen"],
+        rule="totality stream; EVERY implementation run (loader, compile, VM construction, run, second run, drop) happens in a "
+             "child process `cao-verif-harness c04-worker <case file>` of the same build profile (debug in the quick tier, "
+             "debug and release in the thorough tier), at most 12 at a time, wall-clock limit 60 s per child; the observation is "
+             "the last stage entered, the value each finished stage returned, and how the child ended (exit 0 / panic exit "
+             "101 / signal / watchdog). Inputs: (a) texts through serde_json::from_str::<Module> and serde_yaml::from_str: "
+             "serialisations of random modules, mutated (truncation, byte flips, deleted / duplicated spans, names replaced by "
+             "empty / dotted / `super` / `std` / non-ASCII / NUL / 10 000-byte names, numbers replaced by out-of-range ones), "
+             "random token soup over the format's vocabulary, module skeletons with random content, brackets and cards "
+             "nested 10 .. 2 000 000 deep (YAML: 10 000), YAML anchors / aliases / merge keys / tags; every card kind nested "
+             "30 .. 1000 levels through both loaders (they refuse between 55 and 62 levels) and, built inside the worker, 150 "
+             ".. 100 000 levels (outside the domain, class 14); 26 strange names in 7 positions; arities that do not match, "
+             "empty functions, missing main, self-referencing and cyclic imports; 66 000 cards, 1 500 (6 000) locals / "
+             "globals / functions / submodules / imports / arguments, 255+ locals and upvalues, 1 MiB strings, 5 000-step "
+             "property chains, module depth around the recursion limit, recursion limits 0 .. u32::MAX; the zero-handle "
+             "witnesses. (b) compiled programs of vmgen's corpus, progs.rs, random vmgen and modgen modules under "
+             "RuntimeData::new(memory_limit in 0 .. 1 GiB incl. 64, stack_size in 0 .. 1024 incl. 1 and 2, call_stack_size in "
+             "0 .. 1024 incl. 1 and 2) with budgets 0, 1, 2, 3, .. 200 000, optionally run twice on the same VM; programs that "
+             "build self-referencing tables and compare / hash them (A-37) run only in children. Code 2 = the child did not "
+             "end normally, or budget 0 did not give Timeout / call-stack size 0 did not give CallStackOverflow; code 1 = "
+             "Compiler.compile predicts another outcome (Ok, or error payload with fields and location) for the module the "
+             "loader returned (ASCII function names, literals in range, printed term <= 40 000 characters); non-trivial = "
+             "the loader accepted the input; distinct = distinct case term",
+        trusted_base=COMMON_TB + [
+            "modelled, not verified: compiler.rs, compiler/module.rs (Compiler.v, as for C10), vm.rs, vm/instr_execution.rs "
+            "(Vm.v, as for VM / C03); the VM model has fixed stack sizes 256 / 256 and no allocator, so configurations are "
+            "judged by the process-level oracle only",
+            "the operating system's process isolation, exit statuses and signals; rustc's panic = exit code 101 and "
+            "stack-overflow handler (SIGABRT); serde_json / serde_yaml as the loaders",
+        ],
+        assumptions=[
+            "compile_total holds on C04Proofs.module_in_domain (decidable): estimated output below 2^32 bytes, and no hashed "
+            "name / card index path with FNV-1a hash 0 (debug builds), no function or closure label handle 0 (every build) - "
+            "the excluded modules exist and crash the crate (N-C04-1..3, C04_compile_total_zero_*_refuted)",
+            "PARTIAL run_no_abort: one step, 37 of 47 opcodes, under step_pre; instructions that look keys up in tables, "
+            "natives and the upvalue instructions are not covered (C04VmProofs.v header lists every abort site of Vm.v)",
+            "native stack exhaustion and aborts are runtime behaviour: observed per child process, not derivable from the "
+            "models (DESIGN section 9); card nesting deeper than the loaders admit is outside the property (class 14)",
+            "serde_yaml needs time quadratic in the nesting depth before it reports its recursion limit (100 000 open "
+            "brackets: about a minute); the stream keeps YAML nesting at or below 10 000",
+        ],
+    ),
     "C14": dict(
         prop_file="Properties/C14.v",
         check_module="C14Check",
